@@ -200,7 +200,7 @@ package stage
 //@   before call readLocalCompanion assert reads-companion-of-the-partial: arg0 == compPath
 //@   before call os.Remove assert only-part-files: ext == partExt && (arg0 == partPath || arg0 == compPath)
 //@   before call os.Remove assert young-partials-untouched: clock - lastret(fs.FileInfo.ModTime, 0) >= minAge && old(err) == nil
-//@   before call os.Remove(partPath) assert delete-needs-delivered-same-hash: ((fileState == stateFinalized || fileState == stateLogged) && (comp != nil ==> comp.Hash == fileHash)) || (called(sts.ReceiveLogger.WasReceived) && lastret(sts.ReceiveLogger.WasReceived, 0) && lastarg(sts.ReceiveLogger.WasReceived, 1) == relPath && (comp != nil ==> lastarg(sts.ReceiveLogger.WasReceived, 2) == comp.Hash))
+//@   before call os.Remove(partPath) assert delete-needs-delivered-same-hash: (!(fileState == stateUnknown || fileState == stateReceived || fileState == stateValidated || fileState == stateFailed) && (comp != nil ==> comp.Hash == fileHash)) || (called(sts.ReceiveLogger.WasReceived) && lastret(sts.ReceiveLogger.WasReceived, 0) && lastarg(sts.ReceiveLogger.WasReceived, 1) == relPath && (comp != nil ==> lastarg(sts.ReceiveLogger.WasReceived, 2) == comp.Hash))
 //@   before call os.Remove(partPath) assert version-is-looked-up: compExists ==> called(readLocalCompanion) && comp == lastret(readLocalCompanion, 0)
 //@   before call os.Remove(partPath) assert state-of-this-file: lastarg((*Stage).getFileState, 1) == filePath && filePath == lastret(strings.TrimSuffix, 0) && lastarg(strings.TrimSuffix, 0) == path && lastarg(strings.TrimSuffix, 1) == partExt
 //@   before call os.Remove(compPath) assert companion-only-with-partial: ncalls(os.Remove) == 1 && lastarg(os.Remove, 0) == partPath && lastret(os.Remove, 0) == nil
